@@ -34,7 +34,7 @@ def gen_call(tape, pool_size, term_of, ctx_symbols, richgen, ctx, exclude=()):
              (1, "model_value"), (1, "parse_smtlib"), (1, "parse_hr"), (1, "qelim")]
     kinds = kinds + [(2, "substitute_shared"), (2, "parse_long"), (2, "foreign"), (1, "script_serialize"),
                      (2, "resimplify"), (2, "model_value_shared"), (1, "factory"), (1, "register_dwf"),
-                     (1, "declare_freshlike"), (1, "serialize_custom")]
+                     (1, "declare_freshlike"), (1, "serialize_custom"), (1, "odd_constant")]
     kinds = [(w, n) for w, n in kinds if n not in exclude]
     k = tape.weighted(kinds, "call.kind")
     i = tape.draw(pool_size, "call.formula")
@@ -65,6 +65,11 @@ def gen_call(tape, pool_size, term_of, ctx_symbols, richgen, ctx, exclude=()):
         # the user declares (if it does not exist yet) a symbol whose name a fresh-name template
         # could produce later
         spec["name"] = "FV%d" % tape.rint(2, 9, "freshlike.n")
+    if k == "odd_constant":
+        # a number given in a Python type the constructor does not accept (or does it?): the answer
+        # must not depend on whether an equal constant happens to exist already
+        spec["ctor"] = tape.choice(["Int", "Int", "Real"], "oddc.ctor")
+        spec["value"] = tape.choice(["True", "False", "1.0", "2.0", "Fraction(2)", "0.0"], "oddc.value")
     if k == "serialize_custom":
         spec["printer"] = tape.choice(["custom", "default", "custom"], "hr.printer")
         spec["threshold"] = tape.choice([None, None, 2, 5], "hr.threshold")
@@ -184,6 +189,13 @@ def perform(env, spec, f, term, user_symbols):
         return f.substitute(d)
     if k == "factory":
         return factory_call(env, spec)
+    if k == "odd_constant":
+        from fractions import Fraction
+        v = {"True": True, "False": False, "1.0": 1.0, "2.0": 2.0, "Fraction(2)": Fraction(2), "0.0": 0.0}[spec["value"]]
+        if spec["ctor"] == "Real" and not isinstance(v, bool):
+            v = bool(v)         # floats and Fractions are documented spellings of a Real
+        c = getattr(mgr, spec["ctor"])(v)
+        return ["constant", str(c.get_type()), str(c.constant_value()), type(c.constant_value()).__name__]
     if k == "register_dwf":
         return register_dwf(env, spec)
     if k == "declare_freshlike":
